@@ -146,7 +146,7 @@ Section Dump.
      B "(call " ++ fst (call d) ++ B " " ++ sx_args (snd (call d)) ++ B ")"] ++
     slice_table d ++
     concat (mapi (fun k v => dump_var (B "#P") d v (pvariadic d k)) (dparams d)) ++
-    concat (map (fun v => dump_var (B "#R") d v false) (dreturns d)) ++
+    concat (mapi (fun k v => dump_var (B "#R") d v (rvariadic d k)) (dreturns d)) ++
     map (fun i => bstr (name_exists (dscope d) (qualifier i))) (f_imports f) ++
     map (fun v => bstr (name_exists (dscope d) (vname v))) (dparams d ++ dreturns d) ++
     [suggest (dscope d) (B "ret"); bstr (capture_free d)].
